@@ -172,6 +172,72 @@ def grammar_attacks():
     return out
 
 
+def payload_attacks():
+    """name -> (pack bytes, is_thin, [hex ids of the objects the pack carries]): structurally perfect packs whose
+    *object payloads* are hostile (the zlib checksum stops byte flips before any object parser runs, so these have to
+    be built at the object level)."""
+    out = {}
+    base_tree = base_objects()[1][1]
+    bid = packfmt.obj_id(b"blob", base_objects()[0][1])
+    tid = packfmt.obj_id(b"tree", base_tree).hex().encode()
+    ident = b"A <a@b> 1 +0000"
+
+    def commit(*lines, msg=b"m\n"):
+        return b"\n".join(lines) + b"\n\n" + msg
+
+    bad_commits = {
+        "commit:encoding-without-value": commit(b"tree " + tid, b"author " + ident, b"committer " + ident, b"encoding"),
+        "commit:tree-without-value": commit(b"tree", b"author " + ident, b"committer " + ident),
+        "commit:author-without-timezone": commit(b"tree " + tid, b"author A <a@b> 1", b"committer " + ident),
+        "commit:committer-without-time": commit(b"tree " + tid, b"author " + ident, b"committer A <a@b>"),
+        "commit:tree-id-not-hex": commit(b"tree " + b"z" * 40, b"author " + ident, b"committer " + ident),
+        "commit:parent-short-id": commit(b"tree " + tid, b"parent abc", b"author " + ident, b"committer " + ident),
+        "commit:empty": b"",
+        "commit:no-headers": b"\njust a message\n",
+        "commit:time-not-a-number": commit(b"tree " + tid, b"author A <a@b> x +0000", b"committer " + ident),
+    }
+    bad_tags = {
+        "tag:tagger-without-value": b"object " + tid + b"\ntype tree\ntag t\ntagger\n\nm\n",
+        "tag:type-unknown": b"object " + tid + b"\ntype frob\ntag t\ntagger " + ident + b"\n\nm\n",
+        "tag:object-missing": b"type tree\ntag t\ntagger " + ident + b"\n\nm\n",
+        "tag:tagger-without-timezone": b"object " + tid + b"\ntype tree\ntag t\ntagger A <a@b> 1\n\nm\n",
+    }
+    bad_trees = {
+        "tree:garbage-mode": b"1x0644 zz\0" + bid + base_tree,
+        "tree:truncated-id": b"100644 f\0" + bid[:10],
+        "tree:no-nul": b"100644 f" + bid,
+        "tree:empty-mode": b" f\0" + bid,
+    }
+    good_blob = b"innocent companion blob\n"
+    for fam, type_num, tname in ((bad_commits, packfmt.OBJ_COMMIT, b"commit"), (bad_tags, packfmt.OBJ_TAG, b"tag"), (bad_trees, packfmt.OBJ_TREE, b"tree")):
+        for name, payload in fam.items():
+            ids = [packfmt.obj_id(b"blob", good_blob).hex().encode(), packfmt.obj_id(tname, payload).hex().encode()]
+            out[name] = (packfmt.build_pack([(packfmt.OBJ_BLOB, good_blob, None), (type_num, payload, None)]), False, ids)
+    # thin pack: a good REF delta, a REF delta whose result does not parse, one more object than the header admits
+    t2 = b"100644 a\0" + bid + b"100644 c\0" + bid
+    bad = b"1x0644 zz\0" + bid + base_tree
+
+    def ident_delta(base, target):
+        d = packfmt.enc_varint(len(base)) + packfmt.enc_varint(len(target))
+        pos = 0
+        while pos < len(target):
+            chunk = target[pos : pos + 127]
+            d += bytes([len(chunk)]) + chunk
+            pos += 127
+        assert packfmt.patch_delta(base, d) == target
+        return d
+
+    base_id = packfmt.obj_id(b"tree", base_tree)
+    ents = [(packfmt.OBJ_REF_DELTA, ident_delta(base_tree, t2), base_id), (packfmt.OBJ_REF_DELTA, ident_delta(base_tree, bad), base_id), (packfmt.OBJ_BLOB, b"hidden extra blob\n", None)]
+    full = packfmt.build_pack(ents)
+    body = full[:-20]
+    under = body[:8] + struct.pack(">L", 2) + body[12:]
+    ids = [packfmt.obj_id(b"tree", t2).hex().encode(), packfmt.obj_id(b"blob", b"hidden extra blob\n").hex().encode()]
+    out["thin:good-delta+unparsable-delta-result"] = (full, True, ids)
+    out["thin:good-delta+unparsable-delta-result+undercounted"] = (under + hashlib.sha1(under).digest(), True, ids)
+    return out
+
+
 # ---------------------------------------------------------------------------
 # stores
 
@@ -262,9 +328,9 @@ def ingest(store, how, data):
         raise HarnessError(how)
 
 
-def judge_ingest(ctx, template, kind, how, seed_name, mut_name, data, limit, check, reads_byte=True):
+def judge_ingest(ctx, template, kind, how, seed_name, mut_name, data, limit, check, reads_byte=True, probe_ids=()):
     """One ingestion case (runs inside an isolated child)."""
-    case = dict(store=kind, how=how, seed=seed_name, mutation=mut_name, data=data)
+    case = dict(store=kind, how=how, seed=seed_name, mutation=mut_name, data=data, probe_ids=list(probe_ids))
     with warnings.catch_warnings():
         warnings.simplefilter("ignore")
         store, sdir = open_store(kind, template, ctx)
@@ -291,6 +357,27 @@ def judge_ingest(ctx, template, kind, how, seed_name, mut_name, data, limit, che
                 return "baseexc"
             if how == "stream_reader":
                 return outcome
+            if outcome != "ok" and probe_ids:
+                # direct lookups on the instance that did the ingestion, BEFORE any listing (a listing rescans the pack
+                # directory and would drop a pack object that was cached while the rejected pack was still in place)
+                for pid in probe_ids:
+                    if pid in before:
+                        continue
+                    seen = None
+                    try:
+                        if pid in store:
+                            seen = "`id in store` is True"
+                        else:
+                            store.get_raw(pid)
+                            seen = "get_raw(id) returns the object"
+                    except KeyError:
+                        pass
+                    except Exception as e:
+                        seen = f"lookup raises {type(e).__name__}"
+                    if seen:
+                        ctx.fail(f"C04:ingest:{how.split(':')[0]}:rejected-object-served-by-same-instance",
+                                 f"{kind}/{how} on {seed_name}/{mut_name} raised {outcome[4:]}, yet for object {pid!r} of the rejected pack {seen} on the same store instance", check, case)
+                        return outcome
             views = [("same-instance", store)]
             fresh = None
             if kind == "disk":
@@ -403,16 +490,67 @@ def _part_ingest(ctx, item):
         raise HarnessError(f"seed {seed_name} is not accepted by {kind}/{how}: {list(probe.violations)}")
     muts = [m for k, m in enumerate(byte_mutations(data, ctx.thorough, ctx.seed)) if k % nshards == shard]
     cases = [("ingest", seed_name, kind, how, name, d2) for name, d2 in muts]
+    seed_ids = _seed_ids(seed_name)
 
     def fn(sub, c):
         _, sn, kd, hw, mname, d2 = c
-        out = judge_ingest(sub, template, kd, hw, sn, mname, d2, limit, "ingest")
+        out = judge_ingest(sub, template, kd, hw, sn, mname, d2, limit, "ingest", probe_ids=seed_ids)
         sub.case(h64("ing", sn, kd, hw, mname), nontrivial=out != "ok", labels=("ingest", "store:" + kd, "path:" + hw, "outcome:" + out, "mut:" + mname.split("@")[0].split("+")[0]),
                  sample=dict(seed=sn, store=kd, path=hw, mutation=mname, outcome=out) if mname.startswith("flip@3") else None)
 
     def death(c, case, how_died):
         c.fail(f"C04:ingest:{case[3].split(':')[0]}:process-died:{how_died}", f"{case[2]}/{case[3]} on {case[1]}/{case[4]} killed the process ({how_died})", "ingest",
                dict(store=case[2], how=case[3], seed=case[1], mutation=case[4], data=case[5]))
+
+    sandbox.isolated(ctx, fn, cases, death)
+
+
+_SEED_IDS = {}
+
+
+def _seed_ids(seed_name):
+    """hex ids of the objects a seed pack carries (resolved by the independent reader)."""
+    if seed_name not in _SEED_IDS:
+        data, thin = pack_seeds()[seed_name]
+        ents = packfmt.parse_pack(data)
+        by_off = {}
+        ext = {packfmt.obj_id(t, b): (t, b) for t, b in base_objects()}
+        ids = []
+        for off, tnum, size, payload, extra in ents:
+            if tnum in packfmt.TYPE_NAMES:
+                by_off[off] = (packfmt.TYPE_NAMES[tnum], payload)
+            elif tnum == packfmt.OBJ_OFS_DELTA:
+                t, b = by_off[extra]
+                by_off[off] = (t, packfmt.patch_delta(b, payload))
+            else:
+                src = ext.get(extra) or next(v for v in by_off.values() if packfmt.obj_id(*v) == extra)
+                by_off[off] = (src[0], packfmt.patch_delta(src[1], payload))
+            ids.append(packfmt.obj_id(*by_off[off]).hex().encode())
+        _SEED_IDS[seed_name] = ids
+    return _SEED_IDS[seed_name]
+
+
+def _part_payload(ctx, item):
+    kind, how = item
+    template = _template(ctx)
+    seed, _ = pack_seeds()["full"]
+    base_calls = calls_of(lambda: judge_ingest(ctx.child(0), template, kind, how, "full", "none", seed, None, "ingest"))
+    limit = 50 * base_calls + 20000
+    cases = []
+    for name, (data, thin, ids) in payload_attacks().items():
+        if thin and not how.startswith("add_thin_pack"):
+            continue
+        cases.append(("ingest", "payload", kind, how, name, data, ids))
+
+    def fn(sub, c):
+        _, sn, kd, hw, mname, d2, ids = c
+        out = judge_ingest(sub, template, kd, hw, sn, mname, d2, limit, "ingest", probe_ids=ids)
+        sub.case(h64("pl", kd, hw, mname), nontrivial=True, labels=("payload-attack", "payload:" + mname.split(":")[0], "outcome:" + out, "store:" + kd, "path:" + hw),
+                 sample=dict(attack=mname, store=kd, path=hw, outcome=out) if hw == "add_pack" and kd == "disk" and mname.startswith("commit:enc") else None)
+
+    def death(c, case, how_died):
+        c.fail(f"C04:ingest:{case[3].split(':')[0]}:process-died:{how_died}", f"{case[2]}/{case[3]} on payload attack {case[4]} killed the process ({how_died})", "ingest",
+               dict(store=case[2], how=case[3], seed="payload", mutation=case[4], data=case[5], probe_ids=case[6]))
 
     sandbox.isolated(ctx, fn, cases, death)
 
@@ -729,6 +867,7 @@ def run(ctx):
                     items.append((seed, kind, how, ns, k))
     ctx.parallel(_part_ingest, items)
     ctx.parallel(_part_grammar, [(k, h) for k in ("disk", "memory") for h in INGEST if not (h == "stream_reader" and k == "memory") and h != "add_pack_data"])
+    ctx.parallel(_part_payload, [(k, h) for k in ("disk", "memory") for h in INGEST if h != "stream_reader"])
     readers = sorted(reader_seeds(ctx))
     ctx.note("readers", readers)
     ctx.parallel(_part_reader, [(r, 3, k) for r in readers for k in range(3)])
@@ -740,7 +879,8 @@ def replay(ctx, check, case):
         template = _template(ctx)
 
         def fn(sub, c):
-            judge_ingest(sub, template, case["store"], case["how"], case["seed"], case["mutation"], case["data"], 5_000_000, "ingest")
+            judge_ingest(sub, template, case["store"], case["how"], case["seed"], case["mutation"], case["data"], 5_000_000, "ingest",
+                         probe_ids=case.get("probe_ids", ()))
 
         sandbox.isolated(ctx, fn, [("x",)], lambda c, cc, h: c.fail(f"C04:ingest:{case['how'].split(':')[0]}:process-died:{h}", f"replayed case killed the process ({h})", "ingest", case))
     elif check == "reader":
